@@ -6140,6 +6140,9 @@ class CodegenCtx:
         # Create all transitions for possible conditions
         if unconditional_end_transition:
             result += self._generate_transition_body(unconditional_end_transition, True)
+            if not unconditional_end_transition.is_fallthrough and unconditional_end_transition.target in self.dfa.accepting_states:
+                # an `end` pattern has matched here and the program is complete behind it
+                result.add(f"return {self.program_name.upper()}_DONE;")
 
         if state in self.dfa.accepting_states:
             result.add(f"return {self.program_name.upper()}_DONE;")
